@@ -334,9 +334,13 @@ func (env *SpecEnv) btreeSpec(name string, n *ast.CallExpr) (SV, bool) {
 		var ts []*Term
 		var sorts []string
 		for _, a := range n.Args[1:] {
-			t := scal(env.eval(a))
-			ts = append(ts, t)
-			sorts = append(sorts, t.Sort)
+			// a structured argument (e.g. a struct passed by value) contributes all its leaves
+			var ls []*Term
+			leaves(env.eval(a), &ls)
+			for _, t := range ls {
+				ts = append(ts, t)
+				sorts = append(sorts, t.Sort)
+			}
 		}
 		ret := map[string]string{"extStr": SStr, "extInt": SInt, "extBool": SBool, "extF64": SF64}[name]
 		rt := map[string]types.Type{"extStr": types.Typ[types.String], "extInt": types.Typ[types.Int], "extBool": types.Typ[types.Bool], "extF64": types.Typ[types.Float64]}[name]
